@@ -49,8 +49,10 @@ class Result:
 
     MAX_SIGS = 400_000
 
-    def __init__(self, prop):
+    def __init__(self, prop, shard=0, nshards=1):
         self.prop = prop
+        self.shard = shard
+        self.nshards = nshards
         self.evaluations = 0
         self.sigs = set()
         self.sig_overflow = 0
@@ -86,6 +88,7 @@ class Result:
         self.count("violations_raw")
         self.count("viol:" + kind)
         rec["_key"] = "%016x" % h64(key)
+        rec["_shard"] = [self.shard, self.nshards]
         # keep at most 3 witnesses per distinct mechanism key
         n = sum(1 for v in self.violations if v["_key"] == rec["_key"])
         if n < 3:
@@ -171,7 +174,7 @@ def check_module(prop):
 
 def run_shard(prop, tier, seed, shard, nshards):
     mod = check_module(prop)
-    res = Result(prop)
+    res = Result(prop, shard, nshards)
     try:
         mod.run(res, tier, seed, shard, nshards)
     except Exception as e:  # noqa
@@ -326,4 +329,31 @@ def finish(prop, tier, seed, mod, m, wall, nshards):
             print(f"INCONCLUSIVE property={prop} reason={r}")
         return 2
     print(f"[{prop}] HELD on everything observed")
+    return 0
+
+
+def replay(path):
+    """Re-execute the shard that produced the recorded violation (all checks are deterministic for a given
+    tier/seed/shard under PYTHONHASHSEED=0) and show the violations with the same mechanism key."""
+    with open(path) as f:
+        rec = json.load(f)
+    v = rec["violation"]
+    prop, tier, seed = rec["property"], rec["tier"], rec["seed"]
+    shard, nshards = v.get("_shard", [0, 1])
+    print(f"recorded violation ({prop}, tier={tier}, seed={seed}, shard {shard}/{nshards}):")
+    print(json.dumps({k: v[k] for k in v if k != "case"}, indent=1)[:3000])
+    print("case:", json.dumps(v.get("case"), indent=1)[:3000])
+    if os.environ.get("PYTHONHASHSEED") != "0":
+        env = dict(os.environ, PYTHONHASHSEED="0", PYTHONPATH=VERIF + os.pathsep + REPO, PYTHONDONTWRITEBYTECODE="1")
+        return subprocess.call([PY, "-m", "wsverif", "replay", path], env=env, cwd=VERIF)
+    print(f"\nre-executing shard {shard}/{nshards} of {prop} ({tier}, seed {seed}) against {REPO} ...")
+    d = run_shard(prop, tier, seed, shard, nshards)
+    same = [x for x in d["violations"] if x["_key"] == v["_key"]]
+    print(f"violations in this shard now: {len(d['violations'])}; with the recorded mechanism key: {len(same)}")
+    for x in same[:3]:
+        print(" -", x["kind"], x["detail"][:600])
+    if same:
+        print("REPRODUCED")
+        return 1
+    print("NOT REPRODUCED on the current tree (the recorded mechanism no longer occurs in this shard)")
     return 0
